@@ -9,7 +9,9 @@ package c16
 
 import (
 	"encoding/json"
+	"errors"
 	"fmt"
+	"io"
 	"os"
 	"path/filepath"
 	"strconv"
@@ -28,7 +30,7 @@ const skipMsg = "\x00skip"
 
 func finish(msg string) string {
 	if msg == skipMsg {
-		rec.Discard("cli-timeout")
+		rec.Discard("cli-not-run")
 		return ""
 	}
 	return msg
@@ -64,8 +66,11 @@ func (r runRes) String() string {
 // (skip on harness timeout, violation on a crash).
 func gojq(dir, stdin string, args ...string) (runRes, string) {
 	r := cmdline.Run(cmdline.Opt{Stdin: []byte(stdin), Dir: dir}, args...)
+	if r.Exit == -2 { // the process could not be started (loaded machine): once more, then give up
+		r = cmdline.Run(cmdline.Opt{Stdin: []byte(stdin), Dir: dir}, args...)
+	}
 	rr := runRes{r, args}
-	if r.TimedOut {
+	if r.TimedOut || r.Exit == -2 {
 		return rr, skipMsg
 	}
 	if r.Crashed() {
@@ -81,7 +86,7 @@ func decodeOut(s string) ([]any, error) {
 	for {
 		var v any
 		if err := dec.Decode(&v); err != nil {
-			if err.Error() == "EOF" {
+			if errors.Is(err, io.EOF) {
 				return out, nil
 			}
 			return out, err
